@@ -43,6 +43,11 @@ fn pmap_cases() {
             }
         }
     }
+    // many worker threads: more than any fixed cap an implementation might have, not a multiple of round numbers
+    for (n, t) in [(150u64, 64usize), (150, 65), (150, 72), (200, 99), (150, 128), (70, 65)] {
+        let out: Vec<u64> = parallel_map(|x| x * 10, 0..n, t).collect();
+        println!("PMAP {{\"kind\":\"full\",\"n\":{},\"threads\":{},\"out\":{:?}}}", n, t, out);
+    }
     // a consumer that stalls between two calls (a slow training step)
     for (n, t) in [(8u64, 2usize), (6, 3)] {
         let mut it = parallel_map(work, 0..n, t);
